@@ -1,9 +1,57 @@
-"""C18: determinism — repeated in-process builds and separate processes / thread counts must give
-identical canonical digests (ops, numbering, preprocessed columns, degrees, commitment)."""
-import json, os
+"""C18: determinism — (a) Lean: every hash-container iteration on the compile / key-generation path is an
+explicit ordering argument and the result is proved order-independent (`compile_order_independent`);
+(b) source-site inventory oracle (bin/c18_sites.py): the iteration sites found in the Rust sources must be the
+inventoried ones — an unknown site is reported and intensifies (c); (c) repeated in-process builds and separate
+processes / thread counts must give identical canonical digests (ops, numbering, preprocessed columns, degrees,
+commitment); the decidable hypotheses of (a) are evaluated by the Lean driver on every program of (c);
+(d) the order-sensitive sites of the inventory are driven on the real code (`c18-orders`)."""
+import json, os, subprocess, sys
 from checks import read_lines
 
 PROPERTY = "C18"
+
+
+def site_oracle(ctx):
+    try:
+        out = subprocess.run([sys.executable, f"{ctx['root']}/bin/c18_sites.py", "check", "--repo", "/repo",
+                              "--inventory", f"{ctx['root']}/design_notes/C18_sites.json"],
+                             capture_output=True, text=True, timeout=600)
+        return json.loads(out.stdout)
+    except Exception as e:  # the oracle never makes the check fail by itself
+        return {"error": f"{type(e).__name__}: {e}", "unknown_sites": [], "vanished_sites": [], "line_drift": [],
+                "unreviewed_sites": [], "order_sensitive_sites": [], "found": 0, "inventory": 0, "scanned_files": 0}
+
+
+def determinism_pass(ctx, out, seed, nprog, repeats, procs, corpus, cases_tag=None, label=""):
+    """one differential pass: `procs` fresh processes, each rebuilding every program `repeats` times."""
+    violations, hist, evals, files = [], {}, 0, []
+    for p in range(procs):
+        env = {"RAYON_NUM_THREADS": "1"} if p % 3 == 1 else ({"RAYON_NUM_THREADS": "16"} if p % 3 == 2 else None)
+        tag = f"{label}p{p}"
+        cmd = [ctx["harness"], "determinism", "--seed", str(seed), "--programs", str(nprog), "--repeats", str(repeats),
+               "--corpus", corpus, "--out", out, "--tag", tag]
+        if cases_tag == tag:
+            cmd += ["--cases", "1"]
+        if label:
+            cmd += ["--verifier-circuit", "0"]
+        rc, o = ctx["sh"](cmd, timeout=7200, env=env)
+        if rc != 0:
+            violations.append({"class": "harness-crash", "what": f"determinism exited {rc}: {o[-300:]}", "replay": {}, "no_input": True})
+            continue
+        rep = json.load(open(f"{out}/determinism.{tag}.report.json"))
+        evals += rep["evaluations"]
+        for k, v in rep["hist"].items():
+            hist[k] = hist.get(k, 0) + v
+        for v in rep["violations"]:
+            violations.append({"class": v["class"], "what": f"{v['kind']}: {v.get('first_difference')}", "replay": v["replay"]})
+        files.append(read_lines(f"{out}/determinism.{tag}"))
+    for p in range(1, len(files)):
+        for a, b in zip(files[0], files[p]):
+            if a != b:
+                violations.append({"class": "cross-process-divergence", "what": f"process 0 and {p} disagree: {a} vs {b}",
+                                   "replay": {"id": a.split()[0], "seed": seed, "programs": nprog}})
+                break
+    return violations, hist, evals, files
 
 
 def run(ctx):
@@ -11,49 +59,147 @@ def run(ctx):
     nprog, repeats, procs = (400, 4, 3) if tier == "quick" else (20000, 8, 6)
     out = f"{work}/run0"
     os.makedirs(out, exist_ok=True)
-    violations, hist, evals = [], {}, 0
-    files = []
-    for p in range(procs):
-        env = {"RAYON_NUM_THREADS": "1"} if p == 1 else ({"RAYON_NUM_THREADS": "16"} if p == 2 else None)
-        rc, o = ctx["sh"]([ctx["harness"], "determinism", "--seed", str(seed), "--programs", str(nprog), "--repeats", str(repeats),
-                           "--corpus", f"{ctx['root']}/corpus/determinism", "--out", out, "--tag", f"p{p}"], timeout=7200, env=env)
-        if rc != 0:
-            violations.append({"class": "harness-crash", "what": f"determinism exited {rc}: {o[-300:]}", "replay": {}, "no_input": True})
-            continue
-        rep = json.load(open(f"{out}/determinism.p{p}.report.json"))
+    corpus = f"{ctx['root']}/corpus/determinism"
+
+    # (b) source-site inventory oracle ------------------------------------------------------------------
+    sites = site_oracle(ctx)
+    unknown = sites.get("unknown_sites", []) + sites.get("unreviewed_sites", [])
+    drift = sites.get("line_drift", [])
+    intensify = bool(unknown or drift or sites.get("vanished_sites") or sites.get("error"))
+    if intensify:
+        # an un-inventoried (or moved) hash iteration: not a violation by itself, but search harder
+        repeats, procs = repeats * 3, procs + 3
+
+    # (c) differential rebuilds -------------------------------------------------------------------------
+    violations, hist, evals, files = determinism_pass(ctx, out, seed, nprog, repeats, procs, corpus, cases_tag="p0")
+    distinct = len(set(files[0])) if files else 0
+
+    # the decidable hypotheses of `compile_order_independent`, per program, by the Lean driver
+    inv = {"programs": 0, "ok": 0, "na": 0, "fail": 0, "candidates": 0, "failing_ids": []}
+    cases = f"{out}/determinism.p0.cases"
+    failing = []
+    if os.path.exists(cases):
+        with open(cases) as fin:
+            rc, o = ctx["sh"]([ctx["driver"]], stdin=fin, timeout=3600)
+        answers = [l for l in o.splitlines() if l.startswith("c18inv")]
+        progs = json.load(open(f"{out}/determinism.p0.programs.json"))
+        inv["programs"] = len(progs)
+        if rc != 0 or len(answers) != len(progs):
+            violations.append({"class": "driver-crash", "what": f"p3r_driver on the C18 cases: rc={rc}, {len(answers)} answers for {len(progs)} programs",
+                               "replay": {}, "no_input": True})
+        else:
+            for pr, a in zip(progs, answers):
+                t = a.split()
+                if t[1] == "ok":
+                    inv["ok"] += 1
+                    inv["candidates"] += int(t[2])
+                elif t[1] == "n/a":
+                    inv["na"] += 1
+                else:
+                    inv["fail"] += 1
+                    inv["failing_ids"].append({"id": pr["id"], "answer": a})
+                    failing.append(pr)
+    if failing:
+        # a program outside the theorem's hypotheses (or on which the ordered model itself is order-dependent):
+        # intensified differential search on exactly these programs; only a digest difference is a violation
+        tmpc = f"{out}/uncovered_corpus"
+        os.makedirs(tmpc, exist_ok=True)
+        for i, pr in enumerate(failing[:50]):
+            json.dump({"program": pr["program"], "id": pr["id"]}, open(f"{tmpc}/u{i:03d}.json", "w"))
+        v2, h2, e2, _ = determinism_pass(ctx, out, seed, 0, 200 if tier == "quick" else 1000, 3, tmpc, label="u")
+        for v in v2:
+            v["what"] = "program outside the hypotheses of compile_order_independent: " + v["what"]
+        violations += v2
+        evals += e2
+
+    # programs reaching un-inventoried code cannot be singled out statically: the intensified pass above covers all of
+    # them; additionally rebuild the corpus (the programs that exercised past order bugs) much more often
+    if intensify:
+        v3, h3, e3, _ = determinism_pass(ctx, out, seed + 1, nprog // 2, repeats, 2, corpus, label="x")
+        violations += v3
+        evals += e3
+
+    # (d) the order-sensitive sites on the real code ----------------------------------------------------
+    orders = {"evaluations": 0, "observations": []}
+    rc, o = ctx["sh"]([ctx["harness"], "c18-orders", "--repeats", "40" if tier == "quick" else "400", "--out", out, "--tag", "p0"], timeout=3600)
+    if rc != 0:
+        violations.append({"class": "harness-crash", "what": f"c18-orders exited {rc}: {o[-300:]}", "replay": {}, "no_input": True})
+    else:
+        rep = json.load(open(f"{out}/c18orders.p0.report.json"))
         evals += rep["evaluations"]
-        for k, v in rep["hist"].items():
-            hist[k] = hist.get(k, 0) + v
+        orders = {"evaluations": rep["evaluations"],
+                  "observations": [{"site": ob.get("site"), "case": ob.get("case"), "distinct_outcomes": ob.get("distinct_outcomes"),
+                                    "outcomes": ob.get("outcomes"), "skipped": ob.get("skipped"), "meaning": ob.get("meaning")}
+                                   for ob in rep["observations"]]}
         for v in rep["violations"]:
             violations.append({"class": v["class"], "what": f"{v['kind']}: {v.get('first_difference')}", "replay": v["replay"]})
-        files.append(read_lines(f"{out}/determinism.p{p}"))
-    distinct = len(set(files[0])) if files else 0
-    for p in range(1, len(files)):
-        for a, b in zip(files[0], files[p]):
-            if a != b:
-                violations.append({"class": "cross-process-divergence", "what": f"process 0 and {p} disagree: {a} vs {b}",
-                                   "replay": {"id": a.split()[0], "seed": seed, "programs": nprog}})
-                break
+
     cov = {"evaluations": evals, "distinct_nontrivial": distinct,
            "rule": f"each generated program built {repeats}x in-process in each of {procs} processes (RAYON_NUM_THREADS default/1/16); "
                    "canonical dump = op list, witness numbering, rewrite map, preprocessed role columns and multiplicities, and for every "
-                   "10th program AIR degrees + preprocessed commitment; distinct = distinct program digests",
-           "samples": files[0][:3] if files else [], "input_distribution": hist}
+                   "10th program AIR degrees + preprocessed commitment; distinct = distinct program digests; the Lean driver evaluates "
+                   "fusionInvariant (hypothesis of compile_order_independent) and the reversed-order model on every program",
+           "samples": files[0][:3] if files else [], "input_distribution": hist,
+           "hash_iteration_sites": {"scanned_files": sites.get("scanned_files"), "found": sites.get("found"), "inventory": sites.get("inventory"),
+                                    "order_sensitive_sites": sites.get("order_sensitive_sites"), "oracle_error": sites.get("error")},
+           "unmodelled_hash_iteration_sites": unknown,
+           "vanished_hash_iteration_sites": sites.get("vanished_sites", []),
+           "hash_iteration_site_line_drift": drift,
+           "intensified": intensify,
+           "theorem_hypotheses_per_program": inv,
+           "order_sensitive_sites_on_real_code": orders}
     return violations, cov
 
 
 CHECK = {
-    "lean_modules": ["P3R.Props.C18"],
-    "theorems": ["P3R.C18.lookup_perm_nodup", "P3R.C18.filterRound_order_independent"],
+    "lean_modules": ["P3R.Props.C18", "P3R.Props.C18Order", "P3R.Witness.C18Order"],
+    "theorems": ["P3R.C18.lookup_perm_nodup", "P3R.C18.filterRound_order_independent",
+                 # generic shapes
+                 "P3R.C18.firstErr_isSome_perm", "P3R.C18.firstErr_perm_of_unique", "P3R.C18.extendMap_lookup_perm",
+                 # union-find with path compression, backfill
+                 "P3R.C18.Dsu.setParent_root", "P3R.C18.Dsu.compressPath_root", "P3R.C18.Dsu.find_spec",
+                 "P3R.C18.backfillDsu_spec", "P3R.C18.backfillDsu_order_independent",
+                 "P3R.C18.backfillStep_comm", "P3R.C18.backfill_perm", "P3R.C18.lowerOrd_eq_lower",
+                 # fusion
+                 "P3R.C18.fusedPos_lookup_eq", "P3R.C18.filterRoundOrd_perm", "P3R.C18.filterValidOrd_perm",
+                 "P3R.C18.apply_perm", "P3R.C18.fuseOrd_eq_fuse", "P3R.C18.optimizeOrd_eq",
+                 # build_with_public_mapping
+                 "P3R.C18.e2wCollect_perm", "P3R.C18.e2wPairs_nodup", "P3R.C18.genOrder_perm", "P3R.C18.canonMap_perm",
+                 "P3R.C18.tagTransfer_spec", "P3R.C18.tagTransfer_perm",
+                 # key generation, runner
+                 "P3R.C18.airLoop_perm", "P3R.C18.airLoop_length_perm", "P3R.C18.phase1_perm", "P3R.C18.phase2_lookup_perm",
+                 "P3R.C18.rewritePass_perm",
+                 # combined
+                 "P3R.C18.compile_order_independent", "P3R.C18.compileOrd_core",
+                 # witnesses: non-vacuity and necessity of the hypotheses
+                 "P3R.Witness.C18Order.prog_hyps", "P3R.Witness.C18Order.prog_order_independent", "P3R.Witness.C18Order.prog_builds",
+                 "P3R.Witness.C18Order.tag_error_order_dependent", "P3R.Witness.C18Order.airLoop_order_dependent",
+                 "P3R.Witness.C18Order.airLoop_for_configs", "P3R.Witness.C18Order.fusedPos_needs_distinct_outs",
+                 "P3R.Witness.C18Order.find_compresses", "P3R.Witness.C18Order.find_roots_unchanged"],
     "run": run,
-    "trusted_base": ["process / thread schedules and hash seeds are exercised, not modelled (partial by nature)"],
-    "assumptions": ["equality with the Lean model's own output is checked by C02/C09 on the same generator"],
+    "trusted_base": ["process / thread schedules and hash seeds are exercised, not modelled (partial by nature)",
+                     "the site inventory (design_notes/C18_sites.json) is hand-classified; bin/c18_sites.py (a name-driven scanner, no rustc) "
+                     "re-derives the site set on every run and reports differences",
+                     "the ordered models (Model/Order.lean) are tied to the code through the fixed-order models they are proved equal to "
+                     "(lowerOrd = lower, fuseOrd = fuse), which C02/C09 compare with the real build line by line"],
+    "assumptions": ["equality with the Lean model's own output is checked by C02/C09 on the same generator",
+                    "fusionInvariant (distinct candidate outputs / mul positions) is a hypothesis of compile_order_independent, evaluated per program by the driver",
+                    "AIR-builder loop: order-independent only when every builder builds at most one entry (airLoop_perm); the generic Poseidon builders do not satisfy it with two tables"],
 }
 
 MANIFEST_ENTRY = {
     "property_id": "C18", "quick_cmd": "bin/check C18 --tier quick", "thorough_cmd": "bin/check C18 --tier thorough",
     "evidence_file": "evidence/C18.json", "replay_cmd_template": "bin/check C18 --replay {path}", "engine": "lean-models",
-    "technique": "Lean 4 order-independence lemmas for the hash-iteration points of the optimiser + repeated-build digest comparison across processes",
-    "level_claimed": {"category": "proof", "text": "the only hash-iteration-dependent decisions of the compile model are proved independent of enumeration order (distinct candidate outputs); the rest of the model is a function of Vec order; determinism of the real build under fresh hash seeds, processes and thread counts is exercised by digest comparison.", "design_ref": "4/C18"},
-    "level_note": "schedules are exercised not proved; the Lean statement covers filter_valid's position map only",
+    "technique": "Lean 4: every hash-container iteration of the compile / key-generation path modelled as an explicit ordering argument and proved "
+                 "order-independent (compile_order_independent over a record of all orderings; union-find with path compression; fusion fixpoint; "
+                 "AIR-builder loop) + source-site inventory oracle + repeated-build digest comparison across processes + the order-sensitive "
+                 "sites driven on the real code",
+    "level_claimed": {"category": "proof", "text": "for every builder program and any two assignments of iteration orders to all iterated hash containers "
+                      "(in_connect, the fusion pass's valid set, expr_to_widx, trace generators, tags) the compile model returns the same circuit "
+                      "(compile_order_independent; hypotheses: distinct fusion candidates — evaluated per program —, distinct tags, at most one unmapped tag); "
+                      "ConnectDsu::find with path compression is proved observationally pure; the AIR-builder loop is proved order-independent when each "
+                      "builder builds at most one table and shown order-dependent otherwise (reproduced on the real code); determinism of the real build under "
+                      "fresh hash seeds, processes and thread counts is exercised by digest comparison; a hash iteration that is not in the inventory is reported "
+                      "and intensifies the search.", "design_ref": "4/C18"},
+    "level_note": "schedules are exercised not proved; CommonData / commitment (p3-batch-stark) is exercised, not modelled; the inventory scanner is heuristic",
 }
